@@ -156,7 +156,7 @@ def check_call(rep, cfg, image, proj, ctl, d, requests, path, sigp, cls):
                         probs.append(("read-back", f"{text!r}: read after write gives {rb!r:.100}, reference {wnt!r:.100}"))
     proj.restore(pre)
     key = (cfg, image, path, tuple((x, repr(v)[:60]) for x, v in requests))
-    rep.case(key, outcome="ok" if not probs else probs[0][0])
+    rep.case(key, outcome=("ok:" + "+".join("applied" if e.ok else "refused:" + str(e.why) for e in exps)[:60]) if not probs else probs[0][0])
     for clause, detail in probs[:3]:
         rep.violation(f"write/{path}/{cls}/{clause}", f"{cfg} image {image} [{path}]: {detail}",
                       {"cfg": list(cfg), "image": image, "requests": [[x, v] for x, v in requests], "path": path})
